@@ -134,10 +134,31 @@ FORBIDDEN = re.compile(r'\b(Admitted|admit|Axiom|Axioms|Parameter|Parameters|Con
                        r'type-in-type|impredicative-set)\b')
 
 
-def coq_forbidden_scan():
-    """grep the development for constructs the brief forbids. Returns list of 'file:line: text'."""
+def coq_closure(pid):
+    """.v files (absolute paths) that Properties/<pid>.v and Extract/<pid>.v depend on, by following FEC imports."""
+    todo = [os.path.join(THEORIES, 'Properties', pid + '.v'), os.path.join(THEORIES, 'Extract', pid + '.v')]
+    seen = []
+    while todo:
+        f = todo.pop()
+        if f in seen or not os.path.exists(f):
+            continue
+        seen.append(f)
+        txt = open(f).read()
+        for m in re.finditer(r'From\s+FEC\s+Require\s+(?:Import\s+|Export\s+)?(.*?)\.(?=\s|$)', txt, re.S):
+            for mod in m.group(1).split():
+                todo.append(os.path.join(THEORIES, *mod.split('.')) + '.v')
+        for m in re.finditer(r'(?<!FEC\s)Require\s+(?:Import\s+|Export\s+)?(.*?)\.(?=\s|$)', txt, re.S):
+            for mod in m.group(1).split():
+                if mod.startswith('FEC.'):
+                    todo.append(os.path.join(THEORIES, *mod.split('.')[1:]) + '.v')
+    return seen
+
+
+def coq_forbidden_scan(pid=None):
+    """grep the development (the closure of one property, or everything) for constructs the brief forbids."""
     bad = []
-    for p in glob.glob(os.path.join(THEORIES, '**', '*.v'), recursive=True):
+    files = coq_closure(pid) if pid else glob.glob(os.path.join(THEORIES, '**', '*.v'), recursive=True)
+    for p in files:
         txt = open(p).read()
         # strip comments (nested) before scanning
         out, depth, i = [], 0, 0
@@ -299,7 +320,8 @@ class Ctx:
                     self.trusted_base.append('axioms of %s: %s' % (t['name'], ' '.join(t['assumptions'].split())[:500]))
             if not r['ok']:
                 self.coq_log = r['log']
-        bad = coq_forbidden_scan()
+        bad = coq_forbidden_scan(self.pid)
+        self.notes.append('closure: ' + ' '.join(sorted(os.path.relpath(f, THEORIES) for f in coq_closure(self.pid))))
         self.obligation('no Admitted/Axiom/Parameter/unset-check in the development', not bad, 'hygiene', '; '.join(bad[:5]))
         if bad:
             allok = False
